@@ -79,6 +79,8 @@ def mod(e):
 
 
 CONTRACTS = [
+    # crate attribute needed by the Vec::push model in kani/c01.rs (generic over the allocator)
+    dict(file="weechess-core/src/lib.rs", crate_attr="#![cfg_attr(kani, feature(allocator_api))]"),
     # ---- C20: compact bit-field primitives
     dict(file="weechess-core/src/moves.rs", scope="mod compact", fn="store", attrs=[
         req("offset < 32"),
@@ -308,18 +310,19 @@ PROPS["C01"] = dict(
         K("c01", "c01_k2_expand_moves_contract", kind="bounded", bound="<= 3 destination squares; position fully symbolic",
           desc="K2 expand_moves: appends exactly one move per destination in ascending order, capture kind = kind standing there, "
           "nothing else changes", functions=["GameStateHelper::expand_moves", "Board::piece_at"], timeout=2400),
-        K("c01", "c01_k1_pawn_moves_sound", kind="bounded", bound="one own pawn; every other piece arbitrary", tier="experimental", desc="K1 compute_pawn_moves "
+        K("c01", "c01_k1_pawn_moves_sound", kind="bounded", bound="one own pawn; every other piece arbitrary", tier="quick", desc="K1 compute_pawn_moves "
           "against the constructor contracts, soundness: every generated move satisfies the mailbox rules for pushes, double steps, captures, en "
-          "passant and the four promotions with exact attributes; no duplicates", functions=["MoveGenerator::compute_pawn_moves"], timeout=5400, heavy=True, mem_gb=30),
-        K("c01", "c01_k1_pawn_moves_complete", kind="bounded", bound="one own pawn; every other piece arbitrary", tier="experimental", desc="K1 completeness: every "
-          "move value the rules allow is generated", functions=["MoveGenerator::compute_pawn_moves"], timeout=5400, heavy=True, mem_gb=30),
-    ] + [
-        K("c01", "c01_k1_pawn_pushes_%s_%s" % (h, c), kind="bounded", bound="%s to move, NO opposing piece and no en-passant target (the capture loops fold "
-          "away); %s own pawns, other own pieces arbitrary" % (c, "<= 8" if h == "sound" else "<= 2"),
-          desc="K1 compute_pawn_moves restricted to pushes: single steps, double steps from the home rank over two empty squares, the four "
-          "promotions -- %s" % ("every generated move obeys the rules with exact attributes, no duplicates" if h == "sound" else "every move the rules allow is generated"),
-          functions=["MoveGenerator::compute_pawn_moves"], timeout=9000, tier="experimental", heavy=True, mem_gb=40)
-        for h in ["sound", "complete"] for c in ["white", "black"]
+          "passant and the four promotions with exact attributes; no duplicates", functions=["MoveGenerator::compute_pawn_moves"], timeout=5400, heavy=True, mem_gb=30,
+          unwindset_rules=[("compute_pawn_moves", r"iter_ones\(\)", 2), ("compute_pawn_moves", r"PROMOTION_TYPES", 5), ("compute_pawn_moves", r"OFFSETS", 3)]),
+        K("c01", "c01_k1_pawn_moves_complete", kind="bounded", bound="one own pawn; every other piece arbitrary", tier="quick", desc="K1 completeness: every "
+          "move value the rules allow is generated", functions=["MoveGenerator::compute_pawn_moves"], timeout=5400, heavy=True, mem_gb=30,
+          unwindset_rules=[("compute_pawn_moves", r"iter_ones\(\)", 2), ("compute_pawn_moves", r"PROMOTION_TYPES", 5), ("compute_pawn_moves", r"OFFSETS", 3)]),
+        K("c01", "c01_k1_pawn_moves_sound_8", kind="bounded", bound="<= 8 own pawns (the maximum); every other piece arbitrary", tier="thorough", desc="K1 soundness "
+          "with up to eight pawns", functions=["MoveGenerator::compute_pawn_moves"], timeout=7200, heavy=True, mem_gb=30,
+          unwindset_rules=[("compute_pawn_moves", r"iter_ones\(\)", 9), ("compute_pawn_moves", r"PROMOTION_TYPES", 5), ("compute_pawn_moves", r"OFFSETS", 3)]),
+        K("c01", "c01_k1_pawn_moves_complete_3", kind="bounded", bound="<= 3 own pawns; every other piece arbitrary", tier="thorough", desc="K1 completeness with up "
+          "to three pawns", functions=["MoveGenerator::compute_pawn_moves"], timeout=7200, heavy=True, mem_gb=30,
+          unwindset_rules=[("compute_pawn_moves", r"iter_ones\(\)", 4), ("compute_pawn_moves", r"PROMOTION_TYPES", 5), ("compute_pawn_moves", r"OFFSETS", 3)]),
     ] + [
         K("c01", "c01_k2_%s_moves" % k, kind="bounded", bound="<= 3 own pieces of the kind; abstract attack function; expand_moves replaced by its contract",
           desc="K2 compute_%s_moves: calls expand_moves once per own %s, in square order, with destinations A(piece) minus own pieces"
@@ -335,30 +338,28 @@ PROPS["C01"] = dict(
           "equal the squares the rules name", functions=["common::*"]),
         K("c01", "c01_k4_try_as_legal_move", desc="K4 try_as_legal_move: Some(mv, next) iff the mover's king is not attacked in "
           "next == by_performing_move(state, mv); fully symbolic position and move", functions=["PseudoLegalMove::try_as_legal_move"], timeout=2400),
-        K("c01", "c01_k5_legal_moves_is_filter", kind="bounded", bound="pseudo-legal lists of length <= 3", desc="K5 compute_legal_moves_into == order-preserving "
+        K("c01", "c01_k5_legal_moves_is_filter", kind="bounded", bound="pseudo-legal lists of three arbitrary moves, all eight accept/reject patterns", desc="K5 compute_legal_moves_into == order-preserving "
           "filter of the pseudo-legal list by the legality oracle; stale buffer content does not leak",
-          functions=["MoveGenerator::compute_legal_moves_into", "MoveGenerationBuffer::clear"], timeout=3600, tier="thorough", heavy=True, mem_gb=30),
+          functions=["MoveGenerator::compute_legal_moves_into", "MoveGenerationBuffer::clear"], timeout=2400),
     ],
     assumptions=["K6 (spec level, argued in DESIGN.md): the king-step pre-filter `& !opposing_attacks` (attack map computed with the king on "
                  "the board) never removes a legal king move, and en-passant discovered checks are caught by K4 because the victim "
                  "is removed in the successor",
                  "distinct legal moves differ in (origin, destination, promotion): follows from K1-K3 (no duplicates) by inspection"],
+    trusted=["the model of Vec::push used in K1 and K5 (append in place when capacity suffices; the harness allocates capacity 128 and the model "
+             "asserts it suffices) instead of Kani's symbolic execution of std's growth path"],
     assumed_contracts=["attack look-ups == geometry (C09)", "Board::colored_attacks == attacked-square set (C10)",
+                       "the five Move constructors == their contract functions (C20: c20_contract_functions_equal_constructors)",
                        "State::by_performing_move == successor (C02)", "Move constructors carry their attributes (C20)"],
-    not_claimed=["K1 compute_pawn_moves: the contract (sound, complete, exact attributes, no duplicates against a mailbox spec of pushes, "
-                 "double steps, captures, en passant and promotions) and its harnesses are in kani/c01.rs (c01_k1_pawn_moves_*), but CBMC did "
-                 "not finish either half within 50 minutes (8 GB) even for a single own pawn, and a pushes-only variant (no opposing pieces) ran out of 12 GB, so K1 is NOT part of any tier and "
-                 "pawn move generation is unverified",
-                 "K5's loop is only in the thorough tier (30 GB cap)",
-                 "perft node counts (perft_recursive not put under contract in the time available)",
+    not_claimed=["perft node counts (perft_recursive not put under contract in the time available)",
                  "the top-level statement for an arbitrary legal position as ONE machine-checked theorem: it is the composition of "
                  "K1-K5 with C02/C09/C10/C20, composed on paper"],
     technique="Kani/CBMC: per-function contracts K1-K5 of the move generator, each checked against the contracts of its callees "
               "(abstract attack function, attacked-set oracle, expand_moves contract, legality oracle)",
-    level_text="Proof by composition, bounded where stated, WITHOUT the pawn generator (K1 did not finish, see not_claimed): K2 (expand_moves contract; knight/bishop/rook/queen generators call it "
+    level_text="Proof by composition, bounded where stated: K1 (pawn pushes, double steps, captures, en passant, the four promotions: sound, "
+               "complete, exact attributes, no duplicates; against the Move constructors' contracts), K2 (expand_moves contract; knight/bishop/rook/queen generators call it "
                "with exactly A(piece) minus own pieces), K3 (king steps and the castling rule with exactly the squares the rules "
-               "name), K4 (legality filter == own king not attacked in the C02 successor), K5 (the legal list is the order-"
-               "preserving filter). Each is decided on fully symbolic positions; loop bounds (piece counts, target counts) are "
+               "name), K4 (legality filter == own king not attacked in the C02 successor), K5 (the legal list is the order-preserving filter of the pseudo-legal list, every accept/reject pattern over three moves). Each is decided on fully symbolic positions; loop bounds (piece counts, target counts) are "
                "stated per obligation and those obligations are reported as bounded.",
     level_note="The composition into 'generated set == FIDE-legal set' is on paper (DESIGN.md section 4/C01) and assumes C02, C09, C10, "
                "C20. perft is not claimed.",
